@@ -353,6 +353,28 @@ class Explorer:
                 evs = tuple(ev) if isinstance(ev, (list, tuple)) else (ev,)
                 outs = [Path(p.kind, p.exc, p.env, p.trace + (evs if p.kind == "normal" else ()), p.node) for p in outs]
             return outs
+        if isinstance(s, ast.For) and isinstance(s.iter, ast.Call) and isinstance(s.iter.func, ast.Name) and s.iter.func.id == "range" \
+                and isinstance(s.target, ast.Name) and 1 <= len(s.iter.args) <= 3 and not s.iter.keywords and not s.orelse:
+            # a retry loop written over range(<budget>, 0, -1) / range(<budget>): one round per value, exactly (the bounds are constants of the
+            # explored state)
+            bounds = [self.const_of(a, env) for a in s.iter.args]
+            if all(b is not None for b in bounds) and (len(bounds) < 3 or bounds[2] != 0) and len(range(*bounds)) <= 8:
+                cur = [Path("normal", None, env, trace)]
+                out = []
+                for v in range(*bounds):
+                    nxt = []
+                    for p in cur:
+                        e2 = dict(p.env)
+                        e2[s.target.id] = v
+                        for q in self.run(s.body, e2, p.trace):
+                            if q.kind in ("normal", "continue"):
+                                nxt.append(Path("normal", None, q.env, q.trace))
+                            elif q.kind == "break":
+                                out.append(Path("normal", None, q.env, q.trace))
+                            else:
+                                out.append(q)
+                    cur = nxt
+                return out + cur
         if isinstance(s, (ast.For, ast.AsyncFor)):
             # drains / iteration: zero or one pass is enough for the event automaton (events inside are recorded once)
             pre = self.effects(s.iter, env, trace)
